@@ -762,7 +762,7 @@ def nondet_kind(target):
         return "clock"
     if t in ("std::env::var", "std::env::vars", "std::env::var_os", "std::env::vars_os"):
         return "env"
-    if t in ("std::thread::current", "std::process::id") or t.endswith("thread::{impl#8}::id") or t == "std::thread::Thread::id":
+    if re.search(r"^std::thread::(\w+::)*current$", t) or t == "std::process::id" or re.search(r"^std::thread::\w+::\{impl#\d+\}::id$", t):
         return "thread/process identity"
     if "RandomState" in t and t.endswith("::new"):
         return "random hasher state"
